@@ -29,7 +29,7 @@ type parseCase struct {
 	Aliases map[string]string `json:"aliases,omitempty"`
 	Source  string            `json:"source,omitempty"` // string (default), bytes, reader, scanner
 	Name    string            `json:"name,omitempty"`
-	Fault   *int              `json:"fault,omitempty"` // first failing rune (scanner) / byte (reader) index
+	Fault   *int              `json:"fault,omitempty"`   // first failing rune (scanner) / byte (reader) index
 	EOFWrap bool              `json:"eofwrap,omitempty"` // the injected error also wraps io.EOF (it is still not io.EOF)
 }
 
